@@ -8,9 +8,11 @@ CLAIM = {
                "lifted to every history of entry-point calls of the decoder object; model tied to decoder.go by differential execution on arbitrary and mutated streams",
   "text": "Full proof on the model for the decoder proper: for every byte string, every option set and every history of Decode/Next/PeekFileHeader/PeekFileId/Discard/"
           "CheckIntegrity/Reset calls no step panics and no loop hangs (C03_decode_total, C03_api_total), errors are sticky (C03_sticky); the size-before-wide-read, "
-          "valid-base-type-before-division and fuel arguments are the bounds the Go code relies on. The typed-file listener, the raw decoder, DecodeWithContext, listeners and "
-          "one-byte readers are exercised by the Go oracle under recover() and a watchdog on the same inputs (no theorem in this file: C13 proves the typed Reset total, C16 models "
-          "the raw decoder). Raw decoder: for every byte stream every slice it takes from its fixed array has length <= 130051 (C03_raw_slices_fit, "
+          "valid-base-type-before-division and fuel arguments are the bounds the Go code relies on. The typed-file listener's two-goroutine protocol (pool / message / done channels, capacities translated from listener.go on every run) never deadlocks "
+          "and never livelocks for EVERY channel-buffer option, 0 included, every message list and every scheduling (C03_listener_never_deadlocks, C03_listener_terminates, "
+          "C03_listener_structure; the option-0 case holds since fix b34bd23). The typed-file listener with channel buffers 0/1/2/128, the raw decoder, DecodeWithContext, "
+          "listeners, one-byte readers and a reused decoder (Reset to another buffer size) are exercised by the Go oracle under recover() and a watchdog on the same inputs "
+          "(C13 proves the typed Reset total, C16 models the raw decoder, C08_reset_any_history the reused read buffer). Raw decoder: for every byte stream every slice it takes from its fixed array has length <= 130051 (C03_raw_slices_fit, "
           "C03_raw_lengths_bounded) and the array declared in raw.go, translated on every run, is that long (C03_raw_array_suffices); the raw decoder model stops on every byte "
           "string -- each loop iteration consumes at least one byte, the model's fuel is never exhausted -- and never reaches its 'impossible' branches (C03_raw_total). "
           "'Never fakes success' has its theorems under C04 (Decode accepts only CRC codewords) and C16 (what the full decoder accepts the raw decoder segments identically). A deterministic boundary corpus (largest "
@@ -23,7 +25,7 @@ def run(ctx):
                        "truncation, field size / base type bytes, header fields, duplicated and dropped record slices, developer/compressed bits, appended garbage, chained pairs) "
                        "through every entry point with random options, listeners and one-byte readers; non-trivial = longer than 14 bytes; distinct by bytes")
     ctx.cov["checker_cmd"] = "coq/build.sh Props/C03.vo Run/RunDecode.vo Run/RunC07.vo; coqc Props/C03.v; coqc cases_C03_*.v (vm_compute)"
-    tr = ctx.prepare(parts=["factory", "dump-consts", "crc", "decoder-reset", "decconst"])
+    tr = ctx.prepare(parts=["factory", "dump-consts", "crc", "decoder-reset", "convmode", "decconst", "listener"])
     ok, _ = ctx.coq(["Props/C03.vo", "Run/RunDecode.vo", "Run/RunC07.vo"])
     if ok:
         ctx.props()
